@@ -28,6 +28,10 @@ def run(ctx):
                       "only as the tokens parse_line makes of it (operators, quotes and several words inside the value "
                       "act) - never assigned or inserted as one ready-made word, on no path (a `simple value` shortcut "
                       "turns `alias su='sort|uniq'` into a command named sort|uniq)")
+    ctx.rule("R17-8", "`alias` prints a definition in a form that recreates it: wherever the alias builtin wraps a value in a "
+                      "fixed quote character (a format template `q{}q`), the choice of q depends on the value - the place is "
+                      "dominated by a test of the value for a quote character.  `alias n='{}'` for every value turns "
+                      "`echo 'q s'` into `alias n='echo 'q s''`, which defines something else when fed back")
     for crate in ctx.crates:
         from .c15 import overwrite_rule
         overwrite_rule(ctx, crate, "R17-6", "shell::Shell::add_alias", "aliases")
@@ -42,6 +46,7 @@ def run(ctx):
         head_rule(ctx, crate, b)
         once_rule(ctx, crate, b)
         retokenized_rule(ctx, crate, b)
+        printed_form_rule(ctx, crate)
         table_rule(ctx, crate)
         res = etag.run_sites(ctx, "R17-1", crate, fn_filter=lambda p: p == "shell::expand_alias")
         ctx.floor("R17-1", crate, "operator inspections in expand_alias", len(res), 1)
@@ -334,3 +339,59 @@ def retokenized_rule(ctx, crate, b):
            detail=None if ok else ("%s of text read from the alias table without tokenizing it: a value holding `|`, quotes or "
                                    "several words becomes one literal word" % ", ".join(sorted({k for _, k in bad}))
                                    if bad else "no write of parse_line's tokens found"))
+
+
+def _template_pieces(bs):
+    """rustc's compiled format template: length-prefixed literal pieces, 0xC0.. = placeholder; -> list of str / None"""
+    out, i = [], 0
+    while i < len(bs):
+        n = bs[i]
+        if n == 0:
+            break
+        if n >= 0xC0:
+            out.append(None)
+            i += 1
+            # placeholder options bytes follow for non-trivial specs; the plain `{}` has none
+            continue
+        out.append(bs[i + 1:i + 1 + n].decode("latin-1"))
+        i += 1 + n
+    return out
+
+
+def printed_form_rule(ctx, crate):
+    from .c02 import dom_facts
+    if crate.kind != "bin" and not any(p.startswith("builtins::alias::") for p in crate.bodies):
+        return
+    sites = []
+    for f in crate.fns():
+        if not f.path.startswith("builtins::alias::"):
+            continue
+        for bb, t, c in f.calls():
+            if "Arguments" not in c:
+                continue
+            for a in f.call_args(bb):
+                for sub in mir.subexprs(a):
+                    cb = mir.const_bytes(sub)
+                    if not cb:
+                        continue
+                    pcs = _template_pieces(cb)
+                    for i, pc in enumerate(pcs):
+                        if pc is None and i > 0 and i + 1 < len(pcs) and pcs[i - 1] and pcs[i + 1]:
+                            q = pcs[i - 1][-1]
+                            if q in "'\"" and pcs[i + 1][0] == q:
+                                sites.append((f, bb, q))
+    if not ctx.require(bool(sites), "R17-8", "R17-8|anchor", "no place where the alias builtin quotes a value was found"):
+        return
+    for f, bb, q in sites:
+        tested = False
+        for x in sorted(f.reachable):
+            for tgt, a, v in f.switch_edges(x):
+                a2 = strip_sites(a)
+                if a2[0] == "call" and last_seg(a2[1]) in ("contains", "find", "starts_with", "matches") and len(a2[2]) >= 2:
+                    lit = mir.const_char(a2[2][1]) or mir.const_str(f.expand_vars(a2[2][1]))
+                    if lit in ("'", "\"") and f.dominates(x, bb):     # the test was made (either outcome) before quoting
+                        tested = True
+        ctx.ob("R17-8", f.path, "the value is wrapped in %s only after it was tested for a quote character" % q, tested,
+               key="R17-8|%s|fixed-quote|%s" % (f.path, "single" if q == "'" else "double"), where=f.loc(bb), crate=crate.kind,
+               detail=None if tested else "a value containing %s is printed as `alias n=%s..%s..%s`: fed back to the shell it "
+               "defines a different value (the inner quotes are lost)" % (q, q, q, q))
